@@ -12,23 +12,49 @@ import argparse, json, os, shutil, subprocess, sys, tempfile, glob, concurrent.f
 VERIF = os.path.dirname(os.path.dirname(os.path.abspath(__file__)))
 
 def load_variants():
+    """Hand-written single-instance breakages (variants/*.json), the confirmed seeded changes (seeded/<id>-<k>),
+    the reverse of every fix commit (variants/fixes, attributed through known_findings.txt) and the
+    behaviour-preserving refactorings (neutral/*, which every check must pass silently)."""
+    import re
     out = []
     for f in sorted(glob.glob(os.path.join(VERIF, 'variants', '*.json'))):
         for v in json.load(open(f)):
             v['_src'] = os.path.basename(f)
             out.append(v)
+    for d in sorted(glob.glob(os.path.join(VERIF, 'seeded', 'C*-*'))):
+        meta = json.load(open(os.path.join(d, 'meta.json')))
+        out.append({'id': 'seed-' + os.path.basename(d), 'property': meta['property'], 'patches': [os.path.join('seeded', os.path.basename(d), 'patch.diff')], 'note': meta.get('title', ''), '_src': 'seeded'})
+    fixes = {}
+    kf = os.path.join(VERIF, 'known_findings.txt')
+    if os.path.exists(kf):
+        for line in open(kf):
+            m = re.match(r'fixed: property=(C\d+) (\w+) (.*)', line)
+            if m:
+                fixes[m.group(2)] = (m.group(1), m.group(3))
+    for f in sorted(glob.glob(os.path.join(VERIF, 'variants', 'fixes', 'revert-*.diff'))):
+        c = re.search(r'revert-(\w+)\.diff', f).group(1)
+        if c not in fixes:
+            continue
+        patches = [os.path.join('variants', 'fixes', os.path.basename(f))]
+        if c == '3af0dae':
+            patches.insert(0, os.path.join('variants', 'fixes', 'revert-5e96f31.diff'))
+        out.append({'id': 'revert-fix-' + c, 'property': fixes[c][0], 'patches': patches, 'note': fixes[c][1], '_src': 'fixes'})
+    for d in sorted(glob.glob(os.path.join(VERIF, 'neutral', '*'))):
+        if os.path.exists(os.path.join(d, 'patch.diff')):
+            out.append({'id': 'neutral-' + os.path.basename(d), 'property': '*', 'patches': [os.path.join('neutral', os.path.basename(d), 'patch.diff')], 'expect': 'silent', '_src': 'neutral'})
     return out
 
-def run_one(v, repo):
+def run_one(v, repo, prop=None):
     d = tempfile.mkdtemp(prefix='samlvar.', dir=os.environ.get('VERIF_SCRATCH', '/tmp'))
     try:
         for name in ('go.mod', 'go.sum'):
             shutil.copy(os.path.join(repo, name), d)
         shutil.copytree(os.path.join(repo, 'pkg'), os.path.join(d, 'pkg'))
-        if 'patch' in v:
-            p = subprocess.run(['patch', '-p1', '-s', '-d', d, '-i', os.path.join(VERIF, v['patch'])], capture_output=True, text=True)
-            if p.returncode != 0:
-                return v, 'skipped', 'patch does not apply: ' + p.stdout.strip()[:200]
+        if 'patch' in v or 'patches' in v:
+            for pf in v.get('patches') or [v['patch']]:
+                p = subprocess.run(['patch', '-p1', '-s', '-d', d, '-i', os.path.join(VERIF, pf)], capture_output=True, text=True)
+                if p.returncode != 0:
+                    return v, 'skipped', 'patch does not apply: ' + p.stdout.strip()[:200]
         else:
             edits = v.get('edits') or [v]
             for e in edits:
@@ -40,7 +66,7 @@ def run_one(v, repo):
                     return v, 'skipped', 'anchor text not found in ' + e['file']
                 s = s.replace(e['old'], e['new'], e.get('count', 1))
                 open(path, 'w').write(s)
-        cmd = [os.path.join(VERIF, 'bin', 'samlcheck'), '-property', v['property'], '-repo', d, '-verif', VERIF, '-no-evidence']
+        cmd = [os.path.join(VERIF, 'bin', 'samlcheck'), '-property', prop or v['property'], '-repo', d, '-verif', VERIF, '-no-evidence']
         p = subprocess.run(cmd, capture_output=True, text=True)
         out = p.stdout + p.stderr
         if p.returncode == 2:
@@ -64,15 +90,15 @@ def main():
     ap.add_argument('--repo', default='/repo'); ap.add_argument('--list', action='store_true'); ap.add_argument('--json')
     a = ap.parse_args()
     vs = load_variants()
-    if a.property: vs = [v for v in vs if v['property'] == a.property]
+    if a.property: vs = [v for v in vs if v['property'] in (a.property, '*')]
     if a.id: vs = [v for v in vs if v['id'] == a.id]
     if a.list:
         for v in vs: print(v['property'], v['id'], v.get('note', ''))
         return 0
     res = []
     with cf.ThreadPoolExecutor(max_workers=a.jobs) as ex:
-        for v, st, msg in ex.map(lambda v: run_one(v, a.repo), vs):
-            res.append({'id': v['id'], 'property': v['property'], 'status': st, 'msg': msg})
+        for v, st, msg in ex.map(lambda v: run_one(v, a.repo, a.property if v['property'] == '*' else None), vs):
+            res.append({'id': v['id'], 'property': a.property if v['property'] == '*' and a.property else v['property'], 'status': st, 'msg': msg})
             print(f"{st:10s} {v['property']} {v['id']}: {msg[:160]}")
     bad = [r for r in res if r['status'] in ('MISSED', 'invalid', 'wrong-rule', 'FALSE-ALARM')]
     print(f"variants: {len(res)} run, {sum(r['status']=='caught' for r in res)} caught, {sum(r['status']=='skipped' for r in res)} skipped, {len(bad)} bad")
